@@ -103,19 +103,28 @@ def report(ctx, stage, lines, rej, module="TimescaleTrace"):
     return len(rej)
 
 
+def unknown(ctx):
+    return [v for v in ctx.violations if v[0].startswith("contract:")]
+
+
+def assumptions(ctx):
+    ctx.ev.assume("a range that begins after now (shifted by the largest metric offset) has no level of detail: an empty axis is accepted")
+    ctx.ev.assume("month starts and zone offsets handed to the specification come from Go's time package (trusted)")
+    ctx.ev.assume("timestamps between 1969 and 2036 (TLC integers are 32 bit); metric offsets are whole weeks "
+                  "(whole 31-day months for the monthly step) or rejected with the offset error")
+    ctx.ev.assume("the limit of the contract is MaxSlice (8192); the planner's own budget maxPoints+3 is checked on the model only")
+    ctx.ev.assume("level of this check: contract validation of observed outputs plus a small abstract model; "
+                  "no exhaustive design-level result for the real tables")
+
+
 def run(ctx):
     th = ctx.thorough
-    # 1. the abstract model satisfies the contract (exhaustive over the instance)
-    mc = ctx.tlc("TimescaleMC", "Timescale_mc_big.cfg" if th else "Timescale_mc.cfg", workers=8 if th else 6, heap="4g",
-                 timeout=3000 if th else 900, coverage=False, name="TimescaleModel vs contract",
-                 constants={"LevelRel": [35, 13, 0], "LevelSteps": [[15], [15, 5], [15, 5, 1]], "MaxPts": 12, "Limit": 16})
-    ctx.require_model_ok(mc, "TimescaleModel satisfies the contract")
+    assumptions(ctx)
     ctx.ev.set("exhaustive", False)
-
-    # 2. the real planner, real tables: generator -> Go screen -> TLC on the sample; lod.go helpers
+    # 1. the real planner, real tables: generator -> Go screen of every case -> TLC on the sample
     res, out, rc = ctx.go_test("internal/data_model", "TestVerifC22Timescale",
-                               env={"VERIF_NRANDOM": 150000 if th else 5000, "VERIF_GRID_STRIDE": 1 if th else 9,
-                                    "VERIF_NTRACE": 2500 if th else 250, "VERIF_POINT_BUDGET": 1000000 if th else 60000,
+                               env={"VERIF_NRANDOM": 100000 if th else 5000, "VERIF_GRID_STRIDE": 2 if th else 9,
+                                    "VERIF_NTRACE": 2500 if th else 250, "VERIF_POINT_BUDGET": 600000 if th else 60000,
                                     "VERIF_PER_CLASS": 3 if th else 1, "VERIF_NMONTHOFF": 300 if th else 40,
                                     "VERIF_MAX_BIG": 60 if th else 4},
                                timeout=2400)
@@ -127,32 +136,40 @@ def run(ctx):
     cnt = res.get("counters") or {}
     for n in (res.get("notes") or [])[:8]:
         ctx.log(n[:500])
+    qlines = read_lines(res["files"][0])
+    flagged = cnt.get("flagged", 0)
+    ctx.ev.add_impl("generated inputs on GetTimescale/GetLODs screened against the contract in the driver", res["replayed"],
+                    steps=res["steps"], classes=res.get("distinct"))
+    for s in (res.get("samples") or [])[:2]:
+        ctx.ev.sample(s)
+    if flagged:
+        # the screen flags something: let TLC judge these records right away (they come first in the file)
+        rej, _ = judge(ctx, qlines[:flagged], "flagged by the driver's screen")
+        report(ctx, "real code", qlines, rej)
+        if unknown(ctx):
+            return
+        raise Infra("the driver's screen flags %d calls that TimescaleTrace accepts: %s" % (flagged, (res.get("notes") or [""])[0][:400]))
+
+    # 2. lod.go helpers; one TLC run judges the planner's records and the helpers' records
     res5, out5, rc5 = ctx.go_test("internal/api", "TestVerifC22Lod", env={"VERIF_NRANDOM": 20000 if th else 1500}, timeout=2400)
     res5 = ctx.need_result(res5, out5, rc5, "TestVerifC22Lod")
     if (res5.get("consts") or {}).get("month") != MONTH:
         raise Infra("lod.go: _1M changed")
-    qlines = read_lines(res["files"][0])
     hlines = read_lines(res5["files"][0])
     lines = qlines + hlines
     rej, _ = judge(ctx, lines, "real tables and lod.go helpers", timeout=3000)
     nrej = report(ctx, "real code", lines, rej)
     nq = sum(1 for k in rej if k < len(qlines))
-    flagged = cnt.get("flagged", 0)
-    unknown_q = [k for k in rej if k < len(qlines) and any(signature(json.loads(lines[k]), c).startswith("contract:") for c in rej[k])]
-    if flagged and not unknown_q:
-        raise Infra("the driver's screen flags %d calls that TimescaleTrace accepts: %s" % (flagged, (res.get("notes") or [""])[0][:400]))
-    ctx.ev.add_impl("generated inputs on GetTimescale/GetLODs screened against the contract in the driver", res["replayed"],
-                    steps=res["steps"], classes=res.get("distinct"))
     ctx.ev.add_impl("recorded (args, result) pairs of GetTimescale/GetLODs accepted by TimescaleTrace", len(qlines) - nq,
                     points=cnt.get("trace_points"), rejected=nq)
     ctx.ev.add_impl("roundTime/shiftTimestamp/calcUTCOffset calls accepted by TimescaleTrace", len(hlines) - (nrej - nq),
                     rejected=nrej - nq)
-    for s in (res.get("samples") or [])[:2]:
-        ctx.ev.sample(s)
+    if unknown(ctx):
+        return
 
     # 3. the real planner with the model's tiny table over the model's grid
     res3, out3, rc3 = ctx.go_test("internal/data_model", "TestVerifC22Small",
-                                  env={"VERIF_SMALL_STRIDE": 1 if th else 16, "VERIF_NTRACE": 4000 if th else 500}, timeout=2400)
+                                  env={"VERIF_SMALL_STRIDE": 3 if th else 16, "VERIF_NTRACE": 4000 if th else 500}, timeout=2400)
     res3 = ctx.need_result(res3, out3, rc3, "TestVerifC22Small")
     for n in (res3.get("notes") or [])[:5]:
         ctx.log(n[:500])
@@ -172,11 +189,17 @@ def run(ctx):
             len(dis3), len(slines), brief(json.loads(slines[k]), 500)))
         ctx.ev.assume("the planner deviates from TimescaleModel on %d of %d sampled inputs of the tiny instance; "
                       "the model-checking result then speaks about the model only" % (len(dis3), len(slines)))
+    if unknown(ctx):
+        return
 
-    ctx.ev.assume("a range that begins after now (shifted by the largest metric offset) has no level of detail: an empty axis is accepted")
-    ctx.ev.assume("month starts and zone offsets handed to the specification come from Go's time package (trusted)")
-    ctx.ev.assume("timestamps between 1969 and 2036 (TLC integers are 32 bit); metric offsets are whole weeks "
-                  "(whole 31-day months for the monthly step) or rejected with the offset error")
-    ctx.ev.assume("the limit of the contract is MaxSlice (8192); the planner's own budget maxPoints+3 is checked on the model only")
-    ctx.ev.assume("level of this check: contract validation of observed outputs plus a small abstract model; "
-                  "no exhaustive design-level result for the real tables")
+    # 4. the abstract model satisfies the contract (exhaustive over the instance)
+    mc = ctx.tlc("TimescaleMC", "Timescale_mc_big.cfg" if th else "Timescale_mc.cfg", workers=8, heap="4g",
+                 timeout=3000 if th else 900, name="TimescaleModel vs contract",
+                 constants={"LevelRel": [35, 13, 0], "LevelSteps": [[15], [15, 5], [15, 5, 1]], "MaxPts": 12, "Limit": 16})
+    ctx.require_model_ok(mc, "TimescaleModel satisfies the contract")
+    if th:
+        # non-vacuity: the instance contains axes of three levels and axes that use the whole budget
+        for cfg, what in (("Timescale_probe_multi.cfg", "a three-level axis"), ("Timescale_probe_budget.cfg", "an axis of MaxPts+3 points")):
+            pr = ctx.tlc("TimescaleMC", cfg, workers=4, heap="4g", timeout=900, name="probe: " + what, expect_violation=True, record=False)
+            if not (pr.violated or "").startswith("invariant:Probe"):
+                raise Infra("the model instance never produces %s (vacuous)" % what)
